@@ -81,6 +81,7 @@ package messageview
 //@   modifies mvDidRead
 //@   at entry 0 before set mvDidRead = false
 //@   at call 0 of ReadAll after set mvDidRead = (result1 == nil)
+//@   ensures[a-failed-read-leaves-the-message-with-the-body-it-had; C15 C03] result != nil ==> req.Body == old(req.Body)
 //@   ensures[a-consumed-body-is-replaced-by-its-in-memory-copy] result == nil && mvDidRead ==> req.Body == mvNop && mvNopSrc == iface(mvReader) && mvReaderData == mvReadData
 //@   at call all of Bytes before assert[chunked-message-without-trailers-ends-with-the-blank-line] mv.chunked && mvDidRead && req.Trailer == nil ==> buf.mvEndsBlank
 //@   at call all of Bytes before assert[chunked-message-ends-with-the-blank-line] mv.chunked && mvDidRead && req.Trailer != nil ==> buf.mvEndsBlank
@@ -100,6 +101,7 @@ package messageview
 //@   modifies mvDidRead
 //@   at entry 0 before set mvDidRead = false
 //@   at call 0 of ReadAll after set mvDidRead = (result1 == nil)
+//@   ensures[a-failed-read-leaves-the-message-with-the-body-it-had; C15 C03] result != nil ==> res.Body == old(res.Body)
 //@   ensures[a-consumed-body-is-replaced-by-its-in-memory-copy] result == nil && mvDidRead ==> res.Body == mvNop && mvNopSrc == iface(mvReader) && mvReaderData == mvReadData
 //@   at call all of Bytes before assert[chunked-message-without-trailers-ends-with-the-blank-line] mv.chunked && mvDidRead && res.Trailer == nil ==> buf.mvEndsBlank
 //@   at call all of Bytes before assert[chunked-message-ends-with-the-blank-line] mv.chunked && mvDidRead && res.Trailer != nil ==> buf.mvEndsBlank
